@@ -7,7 +7,7 @@ VERIF = os.path.dirname(os.path.dirname(os.path.abspath(__file__)))
 def table(tag):
     rows = ["| seed | change | needs | detected by |", "|---|---|---|---|"]
     for n in sorted(os.listdir(os.path.join(VERIF, "seeded"))):
-        if f"-{tag}" not in n:
+        if not __import__("re").search(rf"-{tag}[A-Z]", n):
             continue
         m = json.load(open(os.path.join(VERIF, "seeded", n, "meta.json")))
         cut = lambda s, k: (s[:k].rstrip() + "…") if len(s) > k else s
@@ -23,7 +23,7 @@ def keep_table(tag):
     rows = ["| refactoring | what | checks not silent after the fixes |", "|---|---|---|"]
     d = os.path.join(VERIF, "seeded_keep")
     for n in sorted(os.listdir(d)) if os.path.isdir(d) else []:
-        if f"-{tag}" not in n:
+        if not __import__("re").search(rf"-{tag}[A-Z]", n):
             continue
         m = json.load(open(os.path.join(d, n, "meta.json")))
         und = m.get("undecided_in") or {}
@@ -31,11 +31,11 @@ def keep_table(tag):
     return "\n".join(rows)
 
 
-for tag in ("r3", "r4", "r5", "r6", "r7", "r8", "r9"):
+for tag in ("r3", "r4", "r5", "r6", "r7", "r8", "r9", "r10"):
     a, b = f"<!-- keep:{tag} -->", f"<!-- /keep:{tag} -->"
     if a in s and b in s:
         s = s[: s.index(a) + len(a)] + "\n" + keep_table(tag) + "\n" + s[s.index(b):]
-for tag in ("r1", "r2", "r3", "r4", "r5", "r6", "r7", "r8", "r9"):
+for tag in ("r1", "r2", "r3", "r4", "r5", "r6", "r7", "r8", "r9", "r10"):
     a, b = f"<!-- seeds:{tag} -->", f"<!-- /seeds:{tag} -->"
     if a in s and b in s:
         s = s[: s.index(a) + len(a)] + "\n" + table(tag) + "\n" + s[s.index(b):]
